@@ -105,6 +105,8 @@ def build(kind, op, log, results, nch, fail=-1, value=0):
 
     kw = {}
     for f in dataclasses.fields(cls):
+        if not f.init:
+            continue            # not a constructor argument (derived / cache field)
         t = hints.get(f.name)
         if f.name == 'op' and t is str:
             kw['op'] = op
@@ -120,9 +122,14 @@ def build(kind, op, log, results, nch, fail=-1, value=0):
             kw[f.name] = [ast_ops.NameOp('p%d' % i) for i in range(nch)]
         elif t is typing.Any:
             kw[f.name] = value
+        elif f.default is not dataclasses.MISSING or f.default_factory is not dataclasses.MISSING:
+            continue            # optional field of a kind the builder does not know: leave its default
         else:
             raise Uncovered(f"{kind}.{f.name}: {t}")
-    return cls(**kw), stubs
+    try:
+        return cls(**kw), stubs
+    except TypeError as e:
+        raise Uncovered(f"{kind}: {e}")
 
 
 def list_fields(kind):
